@@ -234,10 +234,12 @@ def check(run):
         for xlen in (64, 32):
             if not it["isa"] & (2 if xlen == 64 else 1):
                 continue
-            lab.append((it, xlen))
-    tanswers = plug(["cl " + header(it, xlen) + " " + syntax(it, "->target") for (it, xlen) in lab])
+            # registers on both sides of 16: the patch must leave every register field of both words alone
+            for regs in ((5, 6, 7), (21, 22, 23), (31, 31, 30)):
+                lab.append((it, xlen, regs))
+    tanswers = plug(["cl " + header(it, xlen) + " " + syntax(it, "->target", *regs) for (it, xlen, regs) in lab])
     wreqs, wmeta = [], []
-    for (it, xlen), a in zip(lab, tanswers):
+    for (it, xlen, regs), a in zip(lab, tanswers):
         try:
             stmts = json.loads(a[3:]) if a.startswith("ok ") else []
         except ValueError:
@@ -248,7 +250,7 @@ def check(run):
             run.violation("broken-correspondence", {"kind": "label-template", "mnemonic": it["m"]}, f"`{syntax(it, '->target')}` did not compile to two words and one relocation: {a[:200]}", found_input=False)
             continue
         tmpl = b"".join(int(w[3:], 16).to_bytes(4, "little") for w in words)
-        vals, doc = values_for(it, rng, nrand // 2, pair_range)
+        vals, doc = values_for(it, rng, nrand // 2 if regs[0] == 5 else max(8, nrand // 8), pair_range)
         for v in vals:
             wreqs.append(f"w rv.{it['reloc']} x{tmpl.hex()} {v}")
             wmeta.append((it, xlen, v, gen["ranges"]["label"]))
